@@ -43,6 +43,12 @@ def run_into(rep, tier, prop, focus=None, budget=None, main_sim=None):
     if rx.violation:
       raise tlc.TLCError('design-level violation in the re-binding family: %s' % rx.violation)
     sib += [c for c in _cases(rx) if c['status'] == 'ok' and c['cfg'] and sum(1 for x in c['doc'] if x['t'] == 'import') >= 2]
+    mx = tlc.run('GinDynReg_Export', 'GinDynReg_Export_meth.cfg', workers=1, timeout=900)
+    rep.add_tlc('GinDynReg_Export_meth(every file of the method family: references made before / after methods are configured)', mx, exhaustive=True)
+    if mx.violation:
+      raise tlc.TLCError('design-level violation in the method family: %s' % mx.violation)
+    # a reference and at least one binding of the referenced class or of one of its methods
+    sib += [c for c in _cases(mx) if c['status'] == 'ok' and any(b.get('ref', 'none') != 'none' for b in c['cfg']) and len(c['cfg']) >= 2]
     for c in sib:
       c['family'] = 'sib'
   cases = _cases(ex)
@@ -63,6 +69,12 @@ def run_into(rep, tier, prop, focus=None, budget=None, main_sim=None):
   sb = [c for c in chosen if c.get('family') == 'sib']
   import random
   random.Random(rep.seed + 9).shuffle(sb)
+  # first the files where a scoped reference or a reference to a nested class meets a method binding
+  def _pri(c):
+    refs = [b for b in c['cfg'] if b.get('ref', 'none') != 'none']
+    meths = [b for b in c['cfg'] if b['obj'] in ('meth', 'im')]
+    return -(2 * bool(meths and any(b.get('rscope') for b in refs)) + bool(meths and any(b['ref'] == 'Inner' for b in refs)))
+  sb.sort(key=_pri)
   h = h + sb[:budget // 4]
   rest = [c for c in chosen if not c.get('prev') and c.get('family') != 'sib'][:budget - len(h)]
   for c in h + rest:
